@@ -351,7 +351,7 @@ func zzRec13(epochLow byte, seq uint16, body byte) []byte {
 // DTLS 1.3 receive path, same claim with the configured window: read generations for epochs 3 (current).
 // Sequence numbers are below 2^15 so that the 16 bits on the wire reconstruct to themselves.
 //
-//symgo:entry covers=in_window_delivered13,repeat_dropped13,too_old_dropped13
+//symgo:entry covers=in_window_delivered13,repeat_dropped13,too_old_dropped13,reordered_then_repeated13
 func zzConnWindow13() {
 	w := zzWindow6(zzsymChoice("window", zzsymParam("NWIN")))
 	c := zzConn6(w)
@@ -381,6 +381,13 @@ func zzConnWindow13() {
 		zzsymCover("too_old_dropped13")
 	default:
 		zzsymAssert(got <= 1, "record_between_configured_and_effective_window_at_most_once13")
+	}
+	// whichever way the second record arrived - ahead of the first or, reordered, behind it - its own repetition is
+	// not delivered (a record accepted behind the newest one must be entered into the window like any other)
+	_, err = c.handleIncomingPacket(context.Background(), zzRec13(3, s2, 2), from, nil)
+	zzsymAssert(err == nil && zzDrain6(c) == 0, "repetition_of_second_record_not_delivered13")
+	if got == 1 && s2 < s1 {
+		zzsymCover("reordered_then_repeated13")
 	}
 }
 
